@@ -123,7 +123,7 @@ Definition spec_env (f : feats) : env :=
      treq "alg" "alg" TI32;
      treq "sig" "sig" (TBytesCap L_signature);
      topt "x5c" "x5c" (TVec (TBytesCap 1024) 1) ]);
-  (n_attpref, DCustom n_attpref false true []);
+  (n_attpref, DCustom n_attpref false true [2]);   (* keeps at most two known formats: Vec<AttestationStatementFormat, 2> *)
   (* ---------------- authenticatorClientPIN (0x06) *)
   (n_cp_sub, DRepr "u8" true true [
      ("GetRetries", 1); ("GetKeyAgreement", 2); ("SetPin", 3); ("ChangePin", 4); ("GetPinToken", 5);
